@@ -378,6 +378,7 @@ static void sec_f32pairs(Ctx& c, uint64_t) {
 }
 
 // ---------------------------------------------------------------------------- long double
+static bool mc_zero_or_tiny(const ref::MP& m) { return m.zero(); }
 static void sec_ld1(Ctx& c, uint64_t) {
   std::string cls; double xd = gen_angle(c.rng, cls);
   long double x = (long double)xd;
@@ -419,6 +420,77 @@ static void sec_ld1(Ctx& c, uint64_t) {
   long double y = Math::AngNormalize(x);
   if (!(y == e && std::signbit(y) == std::signbit(e))) c.viol("oracle:C16/f80/AngNormalize", cls, J().f("x_hi", xd).f("got", (double)y).f("want", (double)e));
   if (!(Math::sind(-x) == -s && Math::cosd(-x) == co)) c.viol("law:C16/f80/parity", cls, J().f("x_hi", xd));
+  // ---- the remaining long double instantiations (never called before the API reach monitor said so): tand, atand, AngRound, LatFix
+  {
+    long double t = Math::tand(x);
+    if (!mc_zero_or_tiny(C) && !S.zero()) {
+      ref::MP T(300); mpfr_div(T.v, S.v, C.v, MPFR_RNDN);
+      long double ovf = 1 / (std::numeric_limits<long double>::epsilon() * std::numeric_limits<long double>::epsilon());
+      if (std::fabs(T.ld()) < ovf) { double et = err(t, T); c.obs("f80 tand err [ulp]", et, J().f("x_hi", xd)); if (et > TOL_TAN) c.viol("oracle:C16/f80/tand-accuracy", cls, J().f("x_hi", xd).f("x_lo", (double)(x - xd)).f("err_ulp", et)); }
+      else if (!(std::fabs(t) == ovf)) c.viol("oracle:C16/f80/tand-clamp", cls, J().f("x_hi", xd).f("tand", (double)t));
+    }
+    if (!(Math::tand(-x) == -t)) c.viol("law:C16/f80/parity", cls, J().f("x_hi", xd).str("fn", "tand"));
+    long double lf = Math::LatFix(x);
+    if (std::fabs(x) > 90 ? !std::isnan(lf) : !(lf == x && std::signbit(lf) == std::signbit(x))) c.viol("oracle:C16/f80/LatFix", cls, J().f("x_hi", xd).f("got", (double)lf));
+    long double xs = x * (long double)c.rng.logu(1e-12, 1), ar = Math::AngRound(xs), z = 1 / 16.0L;
+    bool okr = std::signbit(ar) == std::signbit(xs) && (std::fabs(xs) >= z ? ar == xs : std::fabs(ar - xs) <= z * std::numeric_limits<long double>::epsilon());
+    if (!okr) c.viol("oracle:C16/f80/AngRound", cls, J().f("x", (double)xs).f("got", (double)ar));
+    // atand of a value of any magnitude: atan in MPFR
+    long double v = (long double)(c.rng.sign() * c.rng.logu(1e-300, 1e300)) * (1 + (long double)c.rng.uniform(-1, 1) * 0x1p-54L), a = Math::atand(v);
+    ref::MP mv(300), ma(300); mv.setld(v); mpfr_atan(ma.v, mv.v, MPFR_RNDN); mpfr_mul_ui(ma.v, ma.v, 180, MPFR_RNDN); mpfr_div(ma.v, ma.v, pi.v, MPFR_RNDN);
+    double ea = err(a, ma); c.obs("f80 atand err [ulp]", ea, J().f("v", (double)v));
+    if (ea > TOL_ATAN2) c.viol("oracle:C16/f80/atand", cls, J().f("v", (double)v).f("got", (double)a).f("err_ulp", ea));
+  }
+}
+
+// two-argument functions in long double: AngDiff and sum (exactness in MPFR), atan2d, taupf / tauf round trip
+static void sec_ld2(Ctx& c, uint64_t) {
+  vh::Rng& r = c.rng; std::string c1, c2;
+  auto ext = [&](double d) { return (long double)d + (r.coin() ? (long double)d * (long double)r.uniform(-1, 1) * 0x1p-54L : 0.0L); };
+  long double x = ext(gen_angle(r, c1)), y = r.coin(0.3) ? x + (long double)r.sign() * (long double)r.logu(1e-18, 1e3) : ext(gen_angle(r, c2));
+  std::string cls = "f80/two-arg"; c.count(cls, vh::hmix(vh::hmix(9, (double)x), (double)y));
+  if (!(std::isfinite((double)x) && std::isfinite((double)y))) return;
+  // sum: u + t == x + y exactly, u = fl(x + y)
+  { long double t, u = Math::sum(x, y, t);
+    ref::MP a(2400), b(2400), e(2400), g(2400); a.setld(x); b.setld(y); mpfr_add(e.v, a.v, b.v, MPFR_RNDN); a.setld(u); b.setld(t); mpfr_add(g.v, a.v, b.v, MPFR_RNDN);
+    if (!(mpfr_cmp(e.v, g.v) == 0 && u == x + y)) c.viol("oracle:C16/f80/sum-not-exact", cls, J().f("x", (double)x).f("y", (double)y).f("u", (double)u).f("t", (double)t)); }
+  // AngDiff: d + e == (y - x) reduced mod 360 exactly (to the 2-word precision the function works with), d in [-180, 180]
+  { long double e, d = Math::AngDiff(x, y, e);
+    ref::MP a(2400), b(2400), w(2400), m360(2400), g(2400); a.setld(x); b.setld(y); mpfr_sub(w.v, b.v, a.v, MPFR_RNDN);      // 2400 bits: exact for any two doubles-range values
+    m360.set(360); mpfr_remainder(w.v, w.v, m360.v, MPFR_RNDN);
+    a.setld(d); b.setld(e); mpfr_add(g.v, a.v, b.v, MPFR_RNDN); mpfr_sub(g.v, g.v, w.v, MPFR_RNDN); mpfr_remainder(g.v, g.v, m360.v, MPFR_RNDN); mpfr_abs(g.v, g.v, MPFR_RNDN);
+    // the reductions of x and y are exact; the two-word result is exact unless the sum needs more than 2 x 64 bits: allow 2^-120 relative to 360
+    double dev = g.d();
+    c.obs("f80 AngDiff |d + e - true| [units of 360 * 2^-120]", dev / (360 * 0x1p-120));
+    if (!(dev <= 360 * 0x1p-120 && std::fabs(d) <= 180)) c.viol("oracle:C16/f80/AngDiff", cls, J().f("x", (double)x).f("y", (double)y).f("d", (double)d).f("e", (double)e).f("dev", dev)); }
+  // atan2d in every quadrant, exact on the axes
+  { long double yy = (long double)(r.sign() * r.logu(1e-300, 1e300)), xx = (long double)(r.sign() * r.logu(1e-300, 1e300)); if (r.coin(0.1)) yy = r.coin() ? 0.0L : -0.0L; if (r.coin(0.1)) xx = r.coin() ? 0.0L : -0.0L;
+    long double a = Math::atan2d(yy, xx);
+    ref::MP my(300), mx(300), ma(300), pi(300); my.setld(yy); mx.setld(xx); mpfr_const_pi(pi.v, MPFR_RNDN); mpfr_atan2(ma.v, my.v, mx.v, MPFR_RNDN); mpfr_mul_ui(ma.v, ma.v, 180, MPFR_RNDN); mpfr_div(ma.v, ma.v, pi.v, MPFR_RNDN);
+    long double t = ma.ld();
+    if (yy == 0 || xx == 0) { if (!(a == t || (std::fabs(a) == 180 && std::fabs(t) == 180))) c.viol("oracle:C16/f80/atan2d-axes", cls, J().f("y", (double)yy).f("x", (double)xx).f("got", (double)a)); }
+    else if (std::fabs(t) > 1e-4000L) { long double u = std::fabs(std::nextafterl(std::fabs(t), INFINITY) - std::fabs(t)); ref::MP g(300); g.setld(a); mpfr_sub(g.v, g.v, ma.v, MPFR_RNDN); mpfr_abs(g.v, g.v, MPFR_RNDN);
+      double ea = (double)(g.ld() / u); c.obs("f80 atan2d err [ulp]", ea); if (ea > TOL_ATAN2) c.viol("oracle:C16/f80/atan2d", cls, J().f("y", (double)yy).f("x", (double)xx).f("got", (double)a).f("err_ulp", ea)); } }
+  // tauf(taupf(tau)) == tau in long double and in float (documented eccentricity range of the iteration: see the f64 section)
+  { static const double esl[] = {0, 0.0818191908426215, 0.3, 0.6, 0.9, -0.0820944379496957, -0.3, -0.9};
+    double es = r.pick(esl); long double tau = (long double)(r.sign() * r.logu(1e-12, 1e12)), back = Math::tauf(Math::taupf(tau, (long double)es), (long double)es);
+    double e2 = (double)(std::fabs(back - tau) / std::fabs(tau) / std::numeric_limits<long double>::epsilon()), K = es > 0 ? 16 + 8 / (1 - es * es) : 16 * (1 + es * es);
+    c.obs("f80 tauf(taupf) round trip rel err [eps]", e2); if (e2 > 2 * K) c.viol("oracle:C16/f80/tauf-roundtrip", cls, J().f("tau", (double)tau).f("es", es).f("err_eps", e2));
+    float tf = (float)(r.sign() * r.logu(1e-6, 1e6)), bf = Math::tauf(Math::taupf(tf, (float)es), (float)es);
+    double e3 = std::fabs((double)bf - (double)tf) / std::fabs((double)tf) / std::numeric_limits<float>::epsilon();
+    c.obs("f32 tauf(taupf) round trip rel err [eps]", e3); if (e3 > 2 * K) c.viol("oracle:C16/f32/tauf-roundtrip", cls, J().f("tau", tf).f("es", es).f("err_eps", e3)); }
+  // sincosde(x, t) in long double and float: sine and cosine of x + t for a tiny correction t (as the f64 section: 2 eps beyond the AngRound slack)
+  { long double tc = (long double)(r.sign() * r.logu(1e-25, 1e-12)), s5, c5; Math::sincosde(x, tc, s5, c5);
+    ref::MP a(2400), b(2400), ms(400), mc(400), pi(2400), m360(2400); a.setld(x); b.setld(tc); mpfr_add(a.v, a.v, b.v, MPFR_RNDN); m360.set(360); mpfr_remainder(a.v, a.v, m360.v, MPFR_RNDN);   // exact sum, exact reduction
+    mpfr_const_pi(pi.v, MPFR_RNDN); mpfr_mul(a.v, a.v, pi.v, MPFR_RNDN); mpfr_div_ui(a.v, a.v, 180, MPFR_RNDN);
+    mpfr_sin_cos(ms.v, mc.v, a.v, MPFR_RNDN);
+    long double eps = std::numeric_limits<long double>::epsilon(), slack = (eps / 16) * (3.14159265358979323846264338327950288L / 180);
+    double e5 = (double)((std::max(std::fabs(s5 - ms.ld()), std::fabs(c5 - mc.ld())) - slack) / eps);
+    c.obs("f80 sincosde abs err beyond AngRound slack [eps]", e5); if (e5 > 2.0) c.viol("oracle:C16/f80/sincosde", cls, J().f("x", (double)x).f("t", (double)tc).f("err_eps", e5));
+    float xf = (float)x, tf = (float)(r.sign() * r.logu(1e-12, 1e-6)), s6, c6; Math::sincosde(xf, tf, s6, c6);
+    if (std::isfinite(xf)) { double ang = ((double)xf + (double)tf), rr = std::remainder(ang, 360.0) * (M_PI / 180), fe = std::numeric_limits<float>::epsilon(), sl = (fe / 16) * (M_PI / 180);
+      double e6 = (std::max(std::fabs((double)s6 - std::sin(rr)), std::fabs((double)c6 - std::cos(rr))) - sl) / fe;
+      c.obs("f32 sincosde abs err beyond AngRound slack [eps]", e6); if (e6 > 2.0) c.viol("oracle:C16/f32/sincosde", cls, J().f("x", xf).f("t", tf).f("err_eps", e6)); } }
 }
 
 // ---------------------------------------------------------------------------- taupf / tauf
@@ -550,6 +622,7 @@ int main(int argc, char** argv) {
   S.push_back({"dbl2", 300000, 15000000, true, sec_dbl2});
   S.push_back({"f32pairs", 300000, 15000000, true, sec_f32pairs});
   S.push_back({"ld1", 100000, 4000000, true, sec_ld1});
+  S.push_back({"ld2", 60000, 2400000, true, sec_ld2});
   S.push_back({"tauf", 200000, 10000000, true, sec_tauf});
   S.push_back({"accum", 20000, 400000, true, sec_accum});
   return vh::run_sections(argc, argv, S);
